@@ -1,5 +1,5 @@
 (* Corr/C03.v — secret plaintext never reaches redacted output. *)
-From Verif Require Import Base.Bytes Base.Wire Model.Chain Model.Eval Corr.EvalWire.
+From Verif Require Import Base.Bytes Base.Wire Model.Chain Model.GoText Model.Eval Corr.EvalWire.
 
 Record case := {
   c_name : string; c_def : envdef; c_world : world; c_obs : iobs;
@@ -14,7 +14,54 @@ Definition spec_fail (c : case) : bool :=
 Definition mismatch (c : case) : bool :=
   match compare_run (c_world c) (c_name c) (c_def c) (c_obs c) with CmpDiff => true | _ => false end.
 
-Definition known (c : case) : bool := false.
+(* known finding C03-fromjson-null: esc.FromJSON returns Value{} for JSON null, dropping the secret flag, so a secret JSON
+   text "null" versus any other document is visible in redacted output.  Class: the program applies fn::fromJSON. *)
+Fixpoint has_fromjson (fuel : nat) (e : expr) : bool :=
+  match fuel with
+  | O => false
+  | S f =>
+    match e with
+    | EFromJSON _ => true
+    | EArr l => existsb (has_fromjson f) l
+    | EObj kvs => existsb (fun kv => has_fromjson f (snd kv)) kvs
+    | EJoin a b => has_fromjson f a || has_fromjson f b
+    | EToJSON a | EToString a | EToB64 a | EFromB64 a => has_fromjson f a
+    | EOpen _ a => has_fromjson f a
+    | _ => false
+    end
+  end.
+
+Fixpoint json_has_null (fuel : nat) (j : json) : bool :=
+  match fuel with
+  | O => false
+  | S f =>
+    match j with
+    | JNull => true
+    | JArr l => existsb (json_has_null f) l
+    | JObj m => existsb (fun kv => json_has_null f (snd kv)) m
+    | _ => false
+    end
+  end.
+
+(* a static secret whose text is a JSON document containing null *)
+Fixpoint has_null_secret (fuel : nat) (e : expr) : bool :=
+  match fuel with
+  | O => false
+  | S f =>
+    match e with
+    | ESecretPlain s => match json_parse s with JPOk j => json_has_null wire_fuel j | _ => false end
+    | EArr l => existsb (has_null_secret f) l
+    | EObj kvs => existsb (fun kv => has_null_secret f (snd kv)) kvs
+    | EJoin a b => has_null_secret f a || has_null_secret f b
+    | EToJSON a | EFromJSON a | EToString a | EToB64 a | EFromB64 a => has_null_secret f a
+    | EOpen _ a => has_null_secret f a
+    | _ => false
+    end
+  end.
+
+Definition known (c : case) : bool :=
+  existsb (fun kv => has_fromjson wire_fuel (snd kv)) (ed_values (c_def c))
+  && existsb (fun kv => has_null_secret wire_fuel (snd kv)) (ed_values (c_def c)).
 Definition spec_fail_new (c : case) : bool := spec_fail c && negb (known c).
 Definition spec_fail_known (c : case) : bool := spec_fail c && known c.
 Definition nontrivial (c : case) : bool := c_compared c.
